@@ -140,12 +140,29 @@ func reference(v *view, root cm.Node, p policy) []event {
 func prop(c harness.Case) harness.Result {
 	blocks, _ := cm.Parse(append([]byte(nil), c.In...))
 	res := harness.Result{}
-	if len(blocks) == 0 {
-		return res
-	}
 	v := &view{mode: c.I["mode"], virtual: c.I["virtual"] == 1, blocks: blocks}
+	if len(blocks) == 0 {
+		// a document without blocks: the walk starts at the zero Node, which
+		// is still a node (one Pre, one Post), under a virtual root with no
+		// children or under the library's default child functions
+		v.virtual = c.I["virtual"] == 1 || v.mode != 0
+		res.Labels = append(res.Labels, "empty_document")
+		if !v.virtual {
+			// zero Node under the library's own child functions: no children
+			want := reference(&view{}, cm.Node{}, policy{prune: map[int]bool{}, abort: -1})
+			n := 0
+			cm.Walk(cm.Node{}, &cm.WalkOptions{
+				Pre:  func(cur *cm.Cursor) bool { n++; return true },
+				Post: func(cur *cm.Cursor) bool { n++; return true },
+			})
+			if n != len(want) {
+				res.Err = fmt.Errorf("Walk over the zero Node made %d callbacks, the reference walker %d", n, len(want))
+			}
+			return res
+		}
+	}
 	root := cm.Node{}
-	if !v.virtual {
+	if !v.virtual && len(blocks) > 0 {
 		root = blocks[c.I["root"]%len(blocks)].AsNode()
 		// the walk may start at any node of the tree, block or inline: the
 		// subroot-th node in document order (0 = the root block itself)
